@@ -255,8 +255,12 @@ def interface_preserved(kind, infer, mask):
     return ir_equiv(want, back, types=True, defaults=True, docs=True, header=False, returns=False)
 
 
-ob("C19", "K4.interface_preserved", {"kind": R(0, len(K4_KINDS) - 1), "infer": BOOL, "mask": R(1, 2 ** len(ATTRS) - 1)}, T=2400, tpath=60,
-   funcs=["cdd.compound.gen_utils.gen_module", "cdd.compound.gen_utils.get_functions_and_classes", "cdd.class_.parse.class_", "cdd.function.parse.function",
-          "cdd.argparse_function.parse.argparse_ast", "cdd.pydantic.parse.pydantic"],
-   bound="one source class with ANY non-empty subset of the attributes %r, emit kind class/function/argparse/pydantic, import inference on/off (solver-enumerated): the generated symbol, "
-         "rendered to text and parsed back with the matching parser, has the names, order, types, defaults and descriptions of the source entry" % ([(n, t, d) for n, t, d, _ in ATTRS],))(interface_preserved)
+for _k in range(len(K4_KINDS)):
+    for _inf, _tier in ((0, "quick"), (1, "thorough")):
+        ob("C19", "K4.interface_preserved.%s%s" % (K4_KINDS[_k].rstrip("_"), ".infer" if _inf else ""), {"kind": R(_k, _k), "infer": R(_inf, _inf), "mask": R(1, 2 ** len(ATTRS) - 1)},
+           T=1200, tpath=60, tier=_tier,
+           funcs=["cdd.compound.gen_utils.gen_module", "cdd.compound.gen_utils.get_functions_and_classes", "cdd.class_.parse.class_", "cdd.function.parse.function",
+                  "cdd.argparse_function.parse.argparse_ast", "cdd.pydantic.parse.pydantic"],
+           bound="one source class with ANY non-empty subset of the attributes %r, emit kind %s, import inference %s (solver-enumerated): the generated symbol, "
+                 "rendered to text and parsed back with the matching parser, has the names, order, types, defaults and descriptions of the source entry"
+                 % ([(n, t, d) for n, t, d, _ in ATTRS], K4_KINDS[_k], "on" if _inf else "off"))(interface_preserved)
